@@ -363,7 +363,14 @@ def gen_world_config(rng, focus, arith=None, d=None, names_kind=None):
         # default alpha is the double 0.001: the library's own weights are rounded, so values that feed the
         # loss (marginal prediction) are only reproducible to rounding - a discontinuous loss cannot be used
         loss["family"] = "sq"
+    # explaining only a subset of the features the model reads (the others are simply never imputed)
+    if d >= 3:
+        for e in explainers:
+            if e["cls"] in ("pfi", "sage") and rng.random() < 0.1:
+                k = rng.randint(1, d - 1)
+                e["names_subset"] = sorted(rng.sample(range(d), k))
     cfg = {
+        "key_order": "shuffled" if rng.random() < 0.3 else "names",
         "arith": arith, "names": names, "names_kind": nk, "seed": rng.getrandbits(32),
         "values": "unique" if rng.random() < 0.8 else "ties",
         "model": model, "loss": loss, "storages": storages, "imputers": imputers, "explainers": explainers,
